@@ -68,6 +68,13 @@ func (n SetNotifiesStage) Exec(ctx context.Context, l *slog.Logger, alerts ...*a
 		return ctx, nil, errors.New("repeat interval missing")
 	}
 	expiry := 2 * repeat
+	// The entry has to outlive the next flushes of the group. With a
+	// repeat_interval shorter than the group_interval it would otherwise
+	// expire (and be garbage collected) before the group is flushed again,
+	// and the resolved notification for the alerts it lists would be lost.
+	if groupInterval, ok := GroupInterval(ctx); ok && expiry < 2*groupInterval {
+		expiry = 2 * groupInterval
+	}
 
 	span.SetAttributes(
 		attribute.Int("alerting.alerts.firing.count", len(firing)),
